@@ -280,18 +280,27 @@ pub fn case_scrape(bytes: &[u8], _s: &[u8], ctx: &mut Ctx) -> Result<(), Fail> {
                 }
                 Fault::Burst => {
                     let ok = std::sync::atomic::AtomicUsize::new(0);
-                    std::thread::scope(|sc| {
-                        for _ in 0..6 {
-                            let ok = &ok;
-                            sc.spawn(move || {
-                                if let Ok(r) = request(p.src, port, "/metrics", Duration::from_secs(5)) {
-                                    if r.status == 200 || r.status == 403 {
-                                        ok.fetch_add(1, std::sync::atomic::Ordering::SeqCst);
+                    // a burst that is not answered within 5 s is repeated once with 30 s: a server that stopped serving
+                    // stays silent, a machine that is merely busy answers (a deadline alone must not decide)
+                    for patience in [5u64, 30] {
+                        ok.store(0, std::sync::atomic::Ordering::SeqCst);
+                        std::thread::scope(|sc| {
+                            for _ in 0..6 {
+                                let ok = &ok;
+                                sc.spawn(move || {
+                                    if let Ok(r) = request(p.src, port, "/metrics", Duration::from_secs(patience)) {
+                                        if r.status == 200 || r.status == 403 {
+                                            ok.fetch_add(1, std::sync::atomic::Ordering::SeqCst);
+                                        }
                                     }
-                                }
-                            });
+                                });
+                            }
+                        });
+                        if ok.load(std::sync::atomic::Ordering::SeqCst) == 6 {
+                            break;
                         }
-                    });
+                        ctx.class("burst-repeated-with-more-patience");
+                    }
                     ensure!(ok.load(std::sync::atomic::Ordering::SeqCst) == 6, "concurrent-scrapers-not-all-served", "only {} of 6 concurrent scrapers got an answer", ok.load(std::sync::atomic::Ordering::SeqCst));
                 }
             }
@@ -306,8 +315,8 @@ pub fn case_scrape(bytes: &[u8], _s: &[u8], ctx: &mut Ctx) -> Result<(), Fail> {
                     continue;
                 }
                 Err(first) => {
-                    // bounded liveness: one re-probe before declaring a violation
-                    match request(p.src, port, p.path, deadline) {
+                    // bounded liveness: one re-probe, with six times the patience, before declaring a violation
+                    match request(p.src, port, p.path, deadline * 6) {
                         Ok(r) => r,
                         Err(second) => return Err(Fail::new("client-not-served", format!("probe {} from {} for {:?} after fault {:?}: {} ; again: {}", pi, p.src, p.path, p.fault, first, second))),
                     }
